@@ -7,6 +7,7 @@ package prototext
 import (
 	"fmt"
 	"strconv"
+	"strings"
 	"unicode/utf8"
 
 	"google.golang.org/protobuf/encoding/protowire"
@@ -348,6 +349,11 @@ func (e encoder) marshalAny(any protoreflect.Message) bool {
 	fds := any.Descriptor().Fields()
 	fdType := fds.ByNumber(genid.Any_TypeUrl_field_number)
 	typeURL := any.Get(fdType).String()
+	if !isTextTypeURL(typeURL) {
+		// The expanded form could not be parsed back (or would be parsed
+		// into a different URL): use the regular form.
+		return false
+	}
 	mt, err := e.opts.Resolver.FindMessageByURL(typeURL)
 	if err != nil {
 		return false
@@ -375,6 +381,47 @@ func (e encoder) marshalAny(any protoreflect.Message) bool {
 	if err != nil {
 		e.Reset(pos)
 		return false
+	}
+	return true
+}
+
+// isTextTypeURL reports whether s can be written between brackets as the
+// name of an expanded Any and is read back unchanged, i.e. whether it
+// matches the grammar of the text format for type URLs
+// (see internal/encoding/text.Decoder.parseTypeName).
+func isTextTypeURL(s string) bool {
+	isNameChar := func(b byte) bool {
+		return b == '-' || b == '_' || ('0' <= b && b <= '9') || ('a' <= b && b <= 'z') || ('A' <= b && b <= 'Z')
+	}
+	isHex := func(b byte) bool {
+		return ('0' <= b && b <= '9') || ('a' <= b && b <= 'f') || ('A' <= b && b <= 'F')
+	}
+	for i := 0; i < len(s); i++ {
+		switch b := s[i]; {
+		case b == '/' || isNameChar(b) || strings.IndexByte(".~!$&()*+,;=", b) >= 0:
+		case b == '%' && i+2 < len(s) && isHex(s[i+1]) && isHex(s[i+2]):
+			i += 2
+		default:
+			return false
+		}
+	}
+	typeName := s
+	if i := strings.LastIndexByte(s, '/'); i >= 0 {
+		if i > 0 && s[0] == '/' {
+			return false
+		}
+		typeName = s[i+1:]
+	}
+	// The type name is a dot-separated list of non-empty identifiers.
+	for _, ident := range strings.Split(typeName, ".") {
+		if ident == "" {
+			return false
+		}
+		for i := 0; i < len(ident); i++ {
+			if !isNameChar(ident[i]) {
+				return false
+			}
+		}
 	}
 	return true
 }
